@@ -279,6 +279,14 @@ func (vc *VC) applyContract(fc *FuncContract, fn *ssa.Function, c *ssa.CallCommo
 		}
 		env.vars[fmt.Sprintf("arg%d", i)] = a
 	}
+	if !c.IsInvoke() {
+		env.argVals = map[string]ssa.Value{}
+		for i, a := range c.Args {
+			if i < len(names) {
+				env.argVals[names[i]] = a
+			}
+		}
+	}
 	if fn != nil {
 		for i, fv := range fn.FreeVars {
 			if mc, ok := c.Value.(*ssa.MakeClosure); ok && i < len(mc.Bindings) {
@@ -302,7 +310,7 @@ func (vc *VC) applyContract(fc *FuncContract, fn *ssa.Function, c *ssa.CallCommo
 	// frame
 	vc.applyModifies(fc, env, st)
 	// results
-	post := &Env{vars: env.vars, st: st, old: pre, loopVals: env.loopVals, pkg: env.pkg}
+	post := &Env{vars: env.vars, st: st, old: pre, loopVals: env.loopVals, pkg: env.pkg, argVals: env.argVals}
 	var res *TV
 	if v != nil {
 		tv := vc.havocVal(v, st)
